@@ -37,7 +37,7 @@ def mk_assoc_model(sc, tc, sc2, tc2, refl):
         kinds = ('B', 'A')
     m.define_association(1, kinds[0], ['A_Id'], 'M' in sc, 'C' in sc, 'src' if refl else '',
                          kinds[1], ['Id'], 'M' in tc, 'C' in tc, 'tgt' if refl else '').formalize()
-    m.define_association(2, kinds[0], ['A2_Id'], 'M' in sc2, 'C' in sc2, 'src' if refl else '',
+    m.define_association(12, kinds[0], ['A2_Id'], 'M' in sc2, 'C' in sc2, 'src' if refl else '',
                          kinds[1], ['Id'], 'M' in tc2, 'C' in tc2, 'tgt' if refl else '').formalize()
     return m, kinds
 
@@ -77,7 +77,7 @@ def check_assoc(ci: int, mat: int, m2: int, refl: bool) -> bool:
         exp.append(e)
     got_all = xtuml.check_association_integrity(m)
     got1 = xtuml.check_association_integrity(m, 1)
-    got2 = xtuml.check_association_integrity(m, 'R2')
+    got2 = xtuml.check_association_integrity(m, 'R12')
     got_none = xtuml.check_association_integrity(m, 7)
     uniq = xtuml.check_uniqueness_constraint(m)
     cons = m.is_consistent()
@@ -103,6 +103,9 @@ def ident_cases():
     for a in itertools.product(range(4), repeat=2):
         for b in itertools.product([0, 4, 7, 5], repeat=2):
             out.append((3, list(a) + [3], list(b) + [8]))
+    for xs in itertools.product(range(3), repeat=3):
+        for b in itertools.product([4, 5], repeat=3):        # n in {0, 1} (s fixed), x in {0, 1, 2}
+            out.append((4, [1, 2, 3], list(b), list(xs)))
     return out
 
 
@@ -117,7 +120,9 @@ def check_ident(ii: int) -> bool:
     """
     # which: bit 0 = identifier I1 (Id), bit 1 = identifier I2 (n, s)
     global LAST_DIFF
-    which, av, bv = ICASES[cs(ii, 0, NIC - 1)]
+    ic = ICASES[cs(ii, 0, NIC - 1)]
+    which, av, bv = ic[0], ic[1], ic[2]
+    xv = ic[3] if len(ic) > 3 else [0, 0, 0]
     with notrace():
         m = xtuml.MetaModel(xtuml.IntegerGenerator())
         m.define_class('K', [('Id', UIDT), ('n', 'INTEGER'), ('s', 'STRING'), ('x', 'INTEGER')])
@@ -126,24 +131,29 @@ def check_ident(ii: int) -> bool:
             m.define_unique_identifier('K', 1, 'Id')
         if which & 2:
             m.define_unique_identifier('K', 2, 'n', 's')
+        if which & 4:
+            m.define_unique_identifier('K', 3, 'n', 'x')
         m.define_unique_identifier('Z', 1, 'Id')
         rows = []
         for k in range(3):
             inst = m.new('K')
             if av[k] == 3 and which == 3 and k == 2:
                 pass
-            inst.Id = IDV[av[k]]; inst.n = NV[bv[k] % 3]; inst.s = SV[bv[k] // 3]
-            rows.append((IDV[av[k]], NV[bv[k] % 3], SV[bv[k] // 3]))
+            inst.Id = IDV[av[k]]; inst.n = NV[bv[k] % 3]; inst.s = SV[bv[k] // 3]; inst.x = xv[k]
+            rows.append((IDV[av[k]], NV[bv[k] % 3], SV[bv[k] // 3], xv[k]))
         z = [m.new('Z'), m.new('Z')]
         z[1].Id = z[0].Id            # one repeated identifier in the other class
     exp = 0
-    for k, (i, n, s) in enumerate(rows):
+    for k, (i, n, s, x) in enumerate(rows):
         if which & 1:
             exp += 1 if (i is None or i == 0) else 0
             exp += 1 if any(rows[j][0] == i for j in range(k)) else 0
         if which & 2:
             exp += (1 if n is None else 0) + (1 if s is None else 0)
-            exp += 1 if any(rows[j][1:] == (n, s) for j in range(k)) else 0
+            exp += 1 if any(rows[j][1:3] == (n, s) for j in range(k)) else 0
+        if which & 4:
+            exp += (1 if n is None else 0)
+            exp += 1 if any((rows[j][1], rows[j][3]) == (n, x) for j in range(k)) else 0
     got_k = xtuml.check_uniqueness_constraint(m, 'K')
     got_z = xtuml.check_uniqueness_constraint(m, 'z')
     got_all = xtuml.check_uniqueness_constraint(m)
@@ -182,8 +192,8 @@ def check_subtype(x: int, y: int) -> bool:
     return True
 
 
-OPTS = [[], ['-r', '1'], ['-r', '2'], ['-R', '1', '-r', '2'], ['-k', 'A'], ['-k', 'B'], ['-k', 'A', '-k', 'B'],
-        ['-r', '1', '-k', 'B'], ['-r', '9']]
+OPTS = [[], ['-r', '1'], ['-r', '12'], ['-R', '1', '-r', '12'], ['-k', 'A'], ['-k', 'B'], ['-k', 'A', '-k', 'B'],
+        ['-r', '1', '-k', 'B'], ['-r', '2']]
 NOPT = len(OPTS)
 
 
@@ -200,7 +210,7 @@ def check_cli(ci: int, a1: int, b0: int, b1: int, oi: int) -> bool:
     sc, tc = CARDS[ci % 4], CARDS[ci // 4]
     text = ('CREATE TABLE A (Id UNIQUE_ID);\nCREATE TABLE B (Id UNIQUE_ID, A_Id UNIQUE_ID, A2_Id UNIQUE_ID);\n'
             'CREATE ROP REF_ID R1 FROM %s B (A_Id) TO %s A (Id);\n'
-            'CREATE ROP REF_ID R2 FROM MC B (A2_Id) TO 1C A (Id);\n'
+            'CREATE ROP REF_ID R12 FROM 1 B (A2_Id) TO 1C A (Id);\n'
             'CREATE UNIQUE INDEX I1 ON A (Id);\nCREATE UNIQUE INDEX I1 ON B (Id);\n' % (sc, tc))
     aids = [1, a1]
     for i in aids:
@@ -228,7 +238,7 @@ def check_cli(ci: int, a1: int, b0: int, b1: int, oi: int) -> bool:
     for i in aids:
         cnt = sum(1 for r in (b0, b1) if r != 0 and r == i)
         e1 += 1 if viol(cnt, sc) else 0
-    e2 = 0          # R2: MC / 1C, nothing linked -> no violation
+    e2 = 2          # R12: every B must have exactly one A across it (unconditional), nothing is linked -> 2 violations
     ua = 1 if a1 == 1 else 0
     ub = 0
     opts = OPTS[oi]
@@ -236,7 +246,7 @@ def check_cli(ci: int, a1: int, b0: int, b1: int, oi: int) -> bool:
     kinds = [opts[k + 1] for k in range(0, len(opts), 2) if opts[k] == '-k']
     exp = 0
     if rels:
-        exp += sum({'1': e1, '2': e2}.get(r, 0) for r in rels)
+        exp += sum({'1': e1, '12': e2}.get(r, 0) for r in rels)
     else:
         exp += e1 + e2
     if kinds:
